@@ -148,13 +148,39 @@ pub struct TapeRun {
     pub failure: Option<(Vec<u32>, Failure)>,
 }
 
+thread_local! {
+    /// source location of the last panic on this thread (set by the hook `install_panic_hook`)
+    pub static LAST_PANIC_AT: std::cell::RefCell<String> = const { std::cell::RefCell::new(String::new()) };
+}
+
+/// silence the default panic output (panics inside properties are caught and reported) but keep
+/// the location, so that a report can say whether the library or the harness panicked
+pub fn install_panic_hook() {
+    std::panic::set_hook(Box::new(|info| {
+        if let Some(loc) = info.location() {
+            let s = format!("{}:{}", loc.file(), loc.line());
+            let _ = LAST_PANIC_AT.try_with(|l| *l.borrow_mut() = s);
+        }
+    }));
+}
+
+pub fn last_panic_at() -> String {
+    LAST_PANIC_AT.try_with(|l| l.borrow().clone()).unwrap_or_default()
+}
+
 fn panic_msg(p: Box<dyn std::any::Any + Send>) -> String {
-    if let Some(s) = p.downcast_ref::<&str>() {
+    let m = if let Some(s) = p.downcast_ref::<&str>() {
         s.to_string()
     } else if let Some(s) = p.downcast_ref::<String>() {
         s.clone()
     } else {
         "non-string panic".to_string()
+    };
+    let at = last_panic_at();
+    if at.is_empty() {
+        m
+    } else {
+        format!("{m} (at {at})")
     }
 }
 
@@ -169,6 +195,15 @@ pub fn guarded(
         prop(&mut t, stats)
     }));
     match r {
+        Ok(r) => r,
+        Err(p) => Err(Failure::new("panic", format!("panic: {}", panic_msg(p)), json!({}))),
+    }
+}
+
+/// run a check body that is not tape driven (replay of a concrete case, fixture loops): a panic of
+/// the library inside it is a failure of the case, not a crash of the harness
+pub fn guard<T>(f: impl FnOnce() -> Result<T, Failure>) -> Result<T, Failure> {
+    match std::panic::catch_unwind(std::panic::AssertUnwindSafe(f)) {
         Ok(r) => r,
         Err(p) => Err(Failure::new("panic", format!("panic: {}", panic_msg(p)), json!({}))),
     }
